@@ -251,7 +251,10 @@ func (r *Run) Inflight(shard int, c any) {
 		return
 	}
 	b, _ := json.Marshal(map[string]any{"property": r.ID, "case": c})
-	_ = os.WriteFile(p+"."+strconv.Itoa(shard), b, 0o644)
+	f := p + "." + strconv.Itoa(shard)
+	if os.WriteFile(f+".tmp", b, 0o644) == nil {
+		_ = os.Rename(f+".tmp", f)
+	}
 }
 
 // ReplayCase loads the "case" field of the replay file named by VERIF_REPLAY into v.
